@@ -59,7 +59,7 @@ def parseSup (str : String) : List SupLink :=
       | some sid, some sh =>
         (sigs.splitOn ",").foldl (fun acc2 x =>
           match (x.dropEnd 1).toString.toNat? with
-          | some n => addSupLink acc2 sid sh { slot := n, valid := x.endsWith "v" }
+          | some n => addSupLinkH acc2 sid sh { slot := n, valid := x.endsWith "v" }
           | none => acc2) acc
       | _, _ => acc
     | _ => acc) []
